@@ -55,9 +55,10 @@ def render_files(case):
                                         fmt_value(value)))
         return '\n'.join(lines) + '\n'
 
-    rain = [(t0 + i * dt, v) for i, v in case['rain']]
-    et = [(t0 + i * dt, v) for i, v in case['et']]
-    wl = [(t0 + off, v) for off, v in case['wl']]
+    # (indices may be fractional in malformed-input cases: whole seconds)
+    rain = [(int(round(t0 + i * dt)), v) for i, v in case['rain']]
+    et = [(int(round(t0 + i * dt)), v) for i, v in case['et']]
+    wl = [(int(round(t0 + off)), v) for off, v in case['wl']]
     return {
         'precipitation': rows_text(
             'datetime,precipitation_mm_h', rain, order.get('rain')),
